@@ -6589,8 +6589,19 @@ impl<Front: SocketHandler> ConnectionH2<Front> {
         };
         let (client_rtt, server_rtt) =
             Self::snapshot_rtts(&self.position, &self.socket, &endpoint, linked_token);
+        // A backend stream reset after part of its response went to the client: the
+        // only honest end is the abort prepared above (RST_STREAM toward an H2 client,
+        // close toward an HTTP/1 one). Asking the frontend what to do with a response
+        // buffer now in error would pick the default 502, appended to the bytes of the
+        // 200 already sent and ended cleanly: a corrupt body delivered as complete.
+        let response_started =
+            !self.position.is_server() && context.streams[stream_id].back.consumed;
         if let Some(token) = linked_token {
-            endpoint.end_stream(token, stream_id, context);
+            if response_started {
+                endpoint.readiness_mut(token).arm_writable();
+            } else {
+                endpoint.end_stream(token, stream_id, context);
+            }
         }
         // Emit access log for server-side resets on streams that had active requests
         if self.position.is_server()
